@@ -295,7 +295,13 @@ func ruleHeaderSpelling(p *Prog, r *Report) {
 	if hf != nil && lf != nil {
 		pats := regexPatterns(p, lf)
 		key := rule + ":ast.(*DataMessage).Header~sml.lexMessageHeader"
-		if len(pats) != 3 {
+		if d, decided, good := headerLexesBack(p, hf); decided {
+			if good {
+				r.ok(rule, key, p.Pos(hf.Pos()), d)
+			} else {
+				r.bad(rule, key, p.Pos(hf.Pos()), d)
+			}
+		} else if len(pats) != 3 {
 			r.unk(rule, key, p.Pos(lf.Pos()), fmt.Sprintf("expected the three header patterns (stream/function, wait bit, direction) in lexMessageHeader, found %d", len(pats)))
 		} else {
 			var bad []string
@@ -361,6 +367,15 @@ func ruleHeaderSpelling(p *Prog, r *Report) {
 	// number prefixes and exponent marker are accepted in both letter cases
 	if nf := p.MustFunc(r, "sml", "lexNumber"); nf != nil {
 		key := rule + ":sml.lexNumber:prefix-case"
+		if d, decided, good := numberPrefixesByEvaluation(p, nf); decided {
+			if good {
+				r.ok(rule, key, p.Pos(nf.Pos()), d)
+			} else {
+				r.bad(rule, key, p.Pos(nf.Pos()), d)
+			}
+			r.Floor(rule, 2)
+			return
+		}
 		in := NewInterp(p)
 		var sets []string
 		in.OnCall = func(call *ssa.Call, callee *ssa.Function, a []Val, fr *frame) {
@@ -1068,4 +1083,92 @@ func printsVariables(p *Prog, fn *ssa.Function, f itemFormat) (detail string, de
 		return strings.Join(firstN(bad, 3), "; "), true, false
 	}
 	return "evaluated on three elements with a variable at each position in turn and with two variables: every name is printed at its own position, the other elements keep their texts", true, true
+}
+
+// headerLexesBack evaluates Header() for every wait-bit state, direction and
+// four code pairs and lexes the printed text with the library's own header
+// state: the tokens must be the stream/function code, the wait bit (when one
+// is printed) and the direction, with exactly the printed spellings.
+func headerLexesBack(p *Prog, hf *ssa.Function) (detail string, decided, good bool) {
+	ttSF, ok1 := smlConst(p, "tokenTypeStreamFunction")
+	ttW, ok2 := smlConst(p, "tokenTypeWaitBit")
+	ttD, ok3 := smlConst(p, "tokenTypeDirection")
+	ttEnd, ok4 := smlConst(p, "tokenTypeMessageEnd")
+	if !ok1 || !ok2 || !ok3 || !ok4 {
+		return "", false, false
+	}
+	var bad []string
+	n := 0
+	for _, w := range []int64{0, 1, 2} {
+		for _, dir := range []string{"H->E", "H<-E", "H<->E"} {
+			for _, sf := range [][2]int64{{0, 0}, {1, 1}, {127, 255}, {6, 11}} {
+				if w == 1 && sf[1]%2 == 0 {
+					continue
+				}
+				in := NewInterp(p)
+				in.PathBind["p0.waitBit"] = int64Val(w)
+				in.PathBind["p0.direction"] = strVal(dir)
+				in.PathBind["p0.stream"] = int64Val(sf[0])
+				in.PathBind["p0.function"] = int64Val(sf[1])
+				in.PathBind["p0.name"] = strVal("")
+				out := in.Run(hf, defaultArgs(hf), nil)
+				rets := out.Frame.ReturnVals()
+				if len(rets) != 1 || rets[0][0].K != KStr {
+					return "", false, false
+				}
+				text := rets[0][0].S
+				toks, ok := lexAll(p, "lexMessageHeader", text+"\n.", 100)
+				if !ok {
+					return "", false, false
+				}
+				n++
+				wantKinds := []int64{ttSF, ttD}
+				wantVals := []string{fmt.Sprintf("S%dF%d", sf[0], sf[1]), dir}
+				if w != 0 {
+					wantKinds = []int64{ttSF, ttW, ttD}
+					wantVals = []string{wantVals[0], map[int64]string{1: "W", 2: "[W]"}[w], dir}
+				}
+				var gotKinds []int64
+				var gotVals []string
+				for _, t := range toks {
+					if t.typ == ttEnd {
+						break
+					}
+					gotKinds = append(gotKinds, t.typ)
+					gotVals = append(gotVals, t.val)
+				}
+				if fmt.Sprint(gotKinds) != fmt.Sprint(wantKinds) || strings.Join(gotVals, "|") != strings.Join(wantVals, "|") {
+					bad = append(bad, fmt.Sprintf("the printed header %q is lexed as %q, expected %q", text, gotVals, wantVals))
+				}
+			}
+		}
+	}
+	if len(bad) > 0 {
+		return strings.Join(firstN(uniq(bad), 3), "; "), true, false
+	}
+	return fmt.Sprintf("%d printed headers (3 wait-bit states x 3 directions x 4 codes), each lexed by the header state of the library itself: the tokens are the stream/function code, the wait bit when one is printed, and the direction, spelled as printed", n), true, true
+}
+
+// numberPrefixesByEvaluation lexes numbers with each radix prefix, hexadecimal
+// digits and the exponent marker in both letter cases.
+func numberPrefixesByEvaluation(p *Prog, nf *ssa.Function) (detail string, decided, good bool) {
+	ttN, ok := smlConst(p, "tokenTypeNumber")
+	if !ok {
+		return "", false, false
+	}
+	lits := []string{"0x1F", "0X1f", "0xabcdef", "0XABCDEF", "0b101", "0B101", "0o17", "0O17", "1e5", "1E5", "1.5e-3", "1.5E+3", "-0x7f", "+0B1"}
+	var bad []string
+	for _, l := range lits {
+		res, ok := lexRun(p, nf, l+" >", 0, "lexMessageText")
+		if !ok || len(res.toks) != 1 {
+			return "", false, false
+		}
+		if res.toks[0].typ != ttN || res.toks[0].val != l {
+			bad = append(bad, fmt.Sprintf("the literal %s is lexed as %q (token type %d)", l, res.toks[0].val, res.toks[0].typ))
+		}
+	}
+	if len(bad) > 0 {
+		return strings.Join(firstN(bad, 3), "; "), true, false
+	}
+	return fmt.Sprintf("evaluated on %d literals: the 0x/0b/0o prefixes, hexadecimal digits and the exponent marker are accepted in both letter cases and stay in one number token", len(lits)), true, true
 }
